@@ -4,7 +4,8 @@ from vlib.common import explore
 
 ID = 'C10'
 LEVEL = 'exploration'
-RULE = ('same state space as C02: bounded exhaustive BFS over bisection sequences from six small abstract meshes '
+RULE = ('[thorough tier additionally: a 300 s atheris/libFuzzer campaign on byte-encoded histories with the same oracle inside the target] '
+        'same state space as C02: bounded exhaustive BFS over bisection sequences from six small abstract meshes '
         '(dedup by refinement tree + link flags) and Hypothesis-generated operation histories on abstract grids '
         'and all shipped curves. For every leaf and each of its four edges the reported neighbour set is compared '
         'with the geometric rule of the reference model evaluated on the leaves that exist (positive-length '
@@ -28,6 +29,8 @@ def run(ctx):
     strat = meshdrive.history_cases(max_ops=30 if ctx.quick else 60,
                                     allow=('t', 'x', 'tx', 'unif', 'unifx', 'iso', 'aniso', 'grade'))
     explore(ctx, strat, lambda case, rec: meshdrive.run_history(case, rec, 'C10'), n)
+    if not ctx.quick and ctx.k == ctx.n - 1:
+        meshdrive.fuzz(ctx, 'C10', 300)
 
 
 def replay(case):
